@@ -13,7 +13,9 @@ PROP = {
         "Sonic.Model.Loop.step_disp_core",
     ],
     "runs": LOOP_RUNS,
-    "keys": ["nesting-deeper-than-limit", "dispatch-depth-not-restored", "regular-file-not-deferrable"],
+    "keys": ["nesting-deeper-than-limit", "dispatch-depth-not-restored", "regular-file-not-deferrable",
+             "operation-deferred-at-limit-never-completed"],
+    "secondary_keys": ["nesting-deeper-than-limit", "operation-deferred-at-limit-never-completed"],
     "rule": LOOP_RULE,
     "trusted_base": LOOP_TB,
     "assumptions": [
